@@ -12,6 +12,9 @@ if TYPE_CHECKING:
 
 @lru_cache(1024)
 def _struct(endian: str, packchar: str) -> Struct:
+    if endian == "@":
+        # Native byte order, but standard sizes and no alignment: the layout is ours, not the C compiler's
+        endian = "="
     return Struct(f"{endian}{packchar}")
 
 
